@@ -653,6 +653,67 @@ func c05UdfOpenState(c *core.Ctx, root *packages.Package) {
 			}
 		}
 	}
+	// every other method of the node that uses the UDF (snapshot runs on the snapshotter's goroutine, F121): each call on
+	// n.udf stands behind a test of the opened flag — directly, or of a local that was read from it — on every path
+	for _, f := range core.AllFuncs(root) {
+		if core.RecvName(f.Decl) != "UDFNode" {
+			continue
+		}
+		switch f.Decl.Name.Name {
+		case "stopUDF", "runUDF":
+			continue
+		}
+		var calls []*ast.CallExpr
+		ast.Inspect(f.Decl.Body, func(n ast.Node) bool {
+			if call, ok := n.(*ast.CallExpr); ok {
+				if sel, ok := call.Fun.(*ast.SelectorExpr); ok && an.FieldSel(info, sel.X, "UDFNode", "udf") {
+					calls = append(calls, call)
+				}
+			}
+			return true
+		})
+		if len(calls) == 0 {
+			continue
+		}
+		c.Analysed(f)
+		name := "UDFNode." + f.Decl.Name.Name
+		// texts that stand for the flag: the field itself and locals assigned from it
+		flagTexts := map[string]bool{}
+		recv := an.RecvVarName(f.Decl)
+		flagTexts[recv+".opened"] = true
+		ast.Inspect(f.Decl.Body, func(n ast.Node) bool {
+			if as, ok := n.(*ast.AssignStmt); ok && len(as.Lhs) == len(as.Rhs) {
+				for i, r := range as.Rhs {
+					if an.FieldSel(info, r, "UDFNode", "opened") {
+						if id, ok := as.Lhs[i].(*ast.Ident); ok {
+							flagTexts[id.Name] = true
+						}
+					}
+				}
+			}
+			return true
+		})
+		for _, call := range calls {
+			good := false
+			for text := range flagTexts {
+				t := text
+				if guardedBy(f.Decl.Body, call, t, func(cond ast.Expr, br bool) bool {
+					cond = ast.Unparen(cond)
+					if u, ok := cond.(*ast.UnaryExpr); ok && u.Op == token.NOT {
+						return !br && types.ExprString(ast.Unparen(u.X)) == t
+					}
+					return br && types.ExprString(cond) == t
+				}) {
+					good = true
+				}
+			}
+			m := ""
+			if sel, ok := call.Fun.(*ast.SelectorExpr); ok {
+				m = sel.Sel.Name
+			}
+			c.Check(good, "C05.udf.openstate", name+"#"+m+"-opened-only", call.Pos(), "%s calls %s on the UDF on a path that has not established that the UDF is open: UDFSocket/UDFProcess hand every request to the server that Open creates — %s runs on another goroutine than runUDF (the snapshotter's), and while the connection is still being opened (a socket is dialed for up to five minutes) the call is a nil pointer dereference on a goroutine without recover: the process dies", name, m, f.Decl.Name.Name)
+		}
+	}
 	if fn := c.Need("C05.udf.openstate", "", "UDFNode", "runUDF"); fn != nil {
 		// source order is enough here: runUDF is straight-line up to the go statements
 		var open, firstAbort, setOpened token.Pos
